@@ -23,6 +23,9 @@ CHECKS = {
  "C20": ("other", "effect (write-set) analysis of Reveal's call-graph scope + value-provenance check of the single slot store and the single expression store with path facts + allocation census + lock re-entrancy analysis over held regions (CFG reachability, parameter-rooted lock summaries) + panic-site census restricted to the scope (go/ssa)", "DESIGN.md §3 R-PROV/R-LOCK, §4 C20",
    "Reveal's transitive write set contains no header store, configuration write or append (no stack changes length, kind or flags); its only slot store re-stores the stack found at that index or hoists its only child exactly under the stated condition (non-NOT, one element, Stack/Condition child, neither parenthetical); its only expression store returns the Condition's own expression stack; nothing is constructed (depth cannot grow); no held lock is re-acquired (no self-deadlock); no panic site in the scope.",
    "Necessary conditions (level other): equality of the leaf sequence and of the fully-unwrapped forms over all trees is not decided."),
+ "C07": ("other", "path-argument flow check over the recursive group (who receives indices, indices[1:], indices[0]) + exact return-path decision tables per level compared with stepwise descent + panic-site census restricted to Traverse's scope (go/ssa)", "DESIGN.md §3 R-LEVEL/R-TT, §4 C07",
+   "Each level consumes exactly one path element (only traverse reads indices[0]; only the one recursive descent gets indices[1:]; nothing loops over the path), and each of the four functions' return paths equals the stepwise-descent table: element found and non-nil or (nil,false); Stack/alias and Condition-with-Stack-expression descend, a leaf or non-descendable value with elements left yields (nil,false), the end of the path yields (value,true); empty path and uninitialised receiver yield (nil,false). By induction on the path length Traverse equals stepwise Index descent. No panic site in the scope.",
+   "Level other: decision tables hand-written; alias recognition is C12's subject."),
  "C08": ("other", "whole-package panic-site census: index/slice bounds discharged by linear integer entailment (Fourier-Motzkin over path facts with overflow-aware arithmetic atoms, inductive loop bounds, by-case inlining of length helpers, interprocedural preconditions); nil/reflect/type-assertion/division sites discharged by path-sensitive facts (go/ssa)", "DESIGN.md §3 R-BND/R-NIL/R-REFL/R-CANIF/R-TA/R-DIV, §4 C08",
    "Every instruction of the package that can panic on an argument value - index, slice and string-index expressions (about 110 non-trivial sites), nil dereferences (about 1460), panicking reflect.Value calls, unchecked type assertions, integer divisions - is proved safe on every path for unconstrained 64-bit integers (sums/differences are related to their operands only where overflow is excluded, so MinInt/MaxInt are covered) and arbitrary element values (typed nils of any depth, zero Stacks/Conditions, zero reflect.Values, unexported struct fields), or turned into a precondition checked at every call site; exported entry points may require nothing. Element writes and user-visible element reads on a stack need index >= 1, so the configuration slot cannot be written or returned through any index, and no element write is reachable with an out-of-range index.",
    "Level other: the census is close to a proof of panic freedom but the domains are hand-written. One site assumed (Defrag's truncation index; DESIGN.md). '-k addresses the k-th from the end' is decided only as the proved result range of the index translation; panics inside user closures/String() methods and runtime panics (out of memory, stack overflow through self-containing stacks) are excluded."),
